@@ -189,6 +189,26 @@ pub fn set_tables(names: &'static [&'static [u8]], texts: &'static [TextEntry], 
     }
 }
 
+static NO_LOCAL_OFFS: [u8; 1] = [0];
+/// Offset of the local part inside each element name of `NAMES` (3 for `nc:ok`); a one-entry
+/// table of zeros (the default) means that no name carries a prefix.
+static mut LOCAL_OFFS: &'static [u8] = &NO_LOCAL_OFFS;
+
+/// Register the local-part offsets that go with the element-name table (prefixed spellings).
+pub fn set_local_offsets(offs: &'static [u8]) {
+    unsafe {
+        LOCAL_OFFS = offs;
+    }
+}
+
+#[inline]
+pub fn local_off(id: u8) -> usize {
+    unsafe {
+        let t = LOCAL_OFFS;
+        t[id as usize % t.len()] as usize
+    }
+}
+
 #[inline]
 pub fn name_bytes(id: u8) -> &'static [u8] {
     unsafe {
